@@ -53,7 +53,8 @@ type Result struct {
 	Digest      string         `json:"digest,omitempty"` // behaviour digest (c14b)
 	Skipped     string         `json:"skipped,omitempty"`
 
-	nt map[string]bool
+	nt    map[string]bool
+	infra string
 }
 
 // Report is what the batch binary writes.
@@ -98,6 +99,9 @@ func (r *Result) finish() {
 }
 
 // unitFn runs one property; it fills res and uses run() to execute rapid.
+// infraError is panicked by a property when a helper process (Node driver, schema validator) fails.
+type infraError string
+
 type unit struct {
 	check  string
 	schema string
@@ -183,9 +187,24 @@ func Run(t *testing.T) {
 			}
 			rr := rapidx.Check(u.check+"/"+u.schema+"/"+u.name, ncases, seed, shrink, func(t *rapid.T) {
 				res.Cases++
+				defer func() {
+					// a helper process that cannot be reached is an infrastructure failure (exit 2), never a verdict
+					if r := recover(); r != nil {
+						if ie, ok := r.(infraError); ok {
+							res.infra = string(ie)
+							return
+						}
+						panic(r)
+					}
+				}()
+				if res.infra != "" {
+					return
+				}
 				prop(t)
 			})
-			if rr.Failed {
+			if res.infra != "" {
+				res.Failed, res.Flaky, res.Message = true, false, "infrastructure: "+res.infra
+			} else if rr.Failed {
 				res.Failed = true
 				res.Flaky = rr.Flaky
 				res.Message = rr.Message
